@@ -22,7 +22,11 @@ SPEC = dict(
           "with 3 tags, sleeps across grace/silence/resolution, TrimOpenConns, ForceTrim, GetInfo, CheckLimit) each followed by a "
           "model comparison at quiescence; concurrent: sequential prefix of 5-30 operations, then 2-4 tasks with 5-20 operations "
           "each on disjoint peers plus trims by every task (half of them slept to the next background tick), the background trim loop, the decayer and the delayed deliveries of "
-          "Disconnected (0-31.5 s after CloseWithError, or synchronously); both strata end with a flush, a model comparison, one "
+          "Disconnected (0-31.5 s after CloseWithError, or synchronously); in half of the concurrent runs (shared-peer mode) all tasks operate on the same one or two peers instead "
+          "(TagPeer/UntagPeer/UpsertTag on 3 tag names, Protect/Unprotect on 3 tag names, Connected/Disconnected, trims; a "
+          "protect-storm sub-mode is dominated by Protect/Unprotect), with oracles that hold for every linearisation "
+          "(Value == sum of Tags, protection certainly set/unset from the call history); UpsertTag callbacks contain 0-3 "
+          "scheduling points; both strata end with a flush, a model comparison, one "
           "last TrimOpenConns at a quiescent instant and another comparison; non-trivial = at least one trim closed a connection "
           "and >=2 operations changed model state; distinct = distinct (scheduler decision hash, per-trim closed connections, "
           "final per-peer connections/value/protection)"),
@@ -31,7 +35,7 @@ SPEC = dict(
             "background-trim-closed", "forced-trim-closed-protected", "forcetrim-left-above-low-overall",
             "value-order-compared", "left-bound-checked", "overlapping-trims", "operations-overlapping-a-trim",
             "duplicate-connected", "duplicate-disconnected", "sync-delivery", "bump-applied", "decay-tick-applied", "decay-removed-with-nonzero-after",
-            "early-tag-entry-dropped", "order-dependent-overlap", "resync-after-order-dependent-overlap", "sampled-peer-check"],
+            "early-tag-entry-dropped", "order-dependent-overlap", "resync-after-order-dependent-overlap", "sampled-peer-check", "sampled-protect-check"],
     real=["p2p/net/connmgr (instrumented: sync->simsync, go->simrt.Go, select, map ranges): BasicConnMgr, decayer, background trim loop",
           "benbjohnson/clock.New() on the synctest bubble clock"],
     stubs=["network.Conn (records CloseWithError with stamps; Disconnected delivered later by another task, or synchronously)"],
